@@ -9,11 +9,11 @@ Window(c) == 0 .. (3 * c + 13)
 Edge(c) == {0, 1, 2, 11, 12, 13, c - 1, c, c + 1, c + 11, c + 12, c + 13, 2 * c, 2 * c + 5, 3 * c + 12}
 
 LenQuick(c, n)    == IF n = 1 THEN Window(c) ELSE Edge(c)
-LenThorough(c, n) == IF n = 1 THEN 0 .. (5 * c + 13) ELSE (IF n = 2 THEN Edge(c) ELSE {0, 5, 12, c, c + 1, c + 11, 2 * c + 12})
+LenThorough(c, n) == IF n = 1 THEN 0 .. (5 * c + 13) ELSE (IF n = 2 THEN Edge(c) ELSE {0, 5, c + 1, c + 11, 2 * c + 12})
 
 BufQuick(v)    == {v, v + 2, 2 * v + 6, 100000}
 BufThorough(v) == {v, v + 1, v + 2, v + 16, 2 * v, 2 * v + 6, 3 * v - 2, 100000}
 
 VRLQuick    == {20, 22, 24, 26, 28, 30, 32, 34, 36, 40}
-VRLThorough == {v \in 20..72 : v % 2 = 0}
+VRLThorough == {v \in 20..48 : v % 2 = 0} \cup {64, 72}
 ===================================================================================
